@@ -127,23 +127,38 @@ func init() {
 			pkce        string
 			skipNonce   bool
 			redis       bool
+			advertise   []string // PKCE methods the identity provider's discovery document advertises (nil = both)
+			entra       bool     // provider variant: Microsoft Entra ID, multi-tenant with an allowed-tenants list
 		}
 		var cfgs []lcfg
 		for _, perReq := range []bool{false, true} {
 			for _, enc := range []bool{false, true} {
 				for _, pk := range []string{"", "S256", "plain"} {
-					cfgs = append(cfgs, lcfg{perReq, enc, pk, false, false})
+					cfgs = append(cfgs, lcfg{perReq: perReq, enc: enc, pkce: pk})
 				}
 			}
 		}
-		cfgs = append(cfgs, lcfg{true, false, "S256", true, true}, lcfg{false, false, "", true, false}, lcfg{true, true, "S256", false, true})
+		cfgs = append(cfgs, lcfg{perReq: true, pkce: "S256", skipNonce: true, redis: true}, lcfg{skipNonce: true}, lcfg{perReq: true, enc: true, pkce: "S256", redis: true})
+		// the configured method is what goes out, whatever the identity provider advertises
+		cfgs = append(cfgs, lcfg{pkce: "S256", advertise: []string{"plain"}}, lcfg{pkce: "plain", advertise: []string{"S256"}}, lcfg{pkce: "S256", advertise: []string{}},
+			lcfg{pkce: "", advertise: []string{"S256"}})
+		// provider variant with its own ValidateSession in front of the generic one
+		cfgs = append(cfgs, lcfg{entra: true}, lcfg{entra: true, pkce: "S256", perReq: true})
 		u := defaultUser()
 		for _, lc := range cfgs {
-			cfg := proxyCfg{CSRFPerRequest: lc.perReq, EncodeState: lc.enc, PKCE: lc.pkce, SkipNonce: lc.skipNonce, Redis: lc.redis, InjectRequest: defaultInject()}
+			cfg := proxyCfg{CSRFPerRequest: lc.perReq, EncodeState: lc.enc, PKCE: lc.pkce, SkipNonce: lc.skipNonce, Redis: lc.redis, InjectRequest: defaultInject(),
+				IdPAdvertisedPKCE: lc.advertise}
+			if lc.entra {
+				cfg.ProviderType, cfg.EntraAllowedTenants, cfg.SkipIssuerCheck = "entra-id", []string{"tenant-1", "tenant-2"}, true
+			}
 			e, err := newEnv(c, cfg)
 			if err != nil {
 				c.violation("HARNESS", "env: "+err.Error(), nil)
 				continue
+			}
+			if lc.entra {
+				e.idp.issOverride = "https://login.microsoftonline.com/tenant-1/v2.0"
+				c.count("provider:entra-id")
 			}
 			e.instrument()
 			nLogins := 1 + c.rng.intn(3)
@@ -526,7 +541,7 @@ func init() {
 			e.close()
 		}
 		_ = time.Now
-		c.close([]string{"c03:established", "c03:rejected", "c03:state-variant", "nonce:echo", "nonce:raw", "pkce:S256", "kind:redirect", "kind:errorPage", "c05:rand-fault", "c05:fresh-check", "c08:no-email", "c03:sweep-state", "c03:sweep-cookie", "c03:tabs"})
+		c.close([]string{"c03:established", "c03:rejected", "c03:state-variant", "nonce:echo", "nonce:raw", "pkce:S256", "kind:redirect", "kind:errorPage", "c05:rand-fault", "c05:fresh-check", "c08:no-email", "c03:sweep-state", "c03:sweep-cookie", "c03:tabs", "provider:entra-id"})
 	})
 }
 
